@@ -827,7 +827,7 @@ func grpcErrorToTrailer(bufferPool *bufferPool, trailer http.Header, protobuf Co
 		return
 	}
 	if connectErr, ok := asError(err); ok {
-		mergeHeaders(trailer, connectErr.meta)
+		mergeErrorMetadata(trailer, connectErr.meta)
 	}
 	trailer.Set(grpcHeaderStatus, code)
 	trailer.Set(grpcHeaderMessage, grpcPercentEncode(bufferPool, status.Message))
